@@ -74,6 +74,7 @@ PROPS['C14'] = {
         dict(name='stop_hist_k4', kernel='C14_stop_token.cpp', prefix='hist_', mode='seq', shim='shim_sync', inline=20000, unwind=6, lower_defs=['-DHIST_K=4'], covers=[0], timeout=2400),
         dict(name='stop_two_callbacks', kernel='C14_stop_token.cpp', prefix='cc2_', mode='res', shim='shim_sync', inline=20000, R=3, BMAX=60, unwind=3, covers=[0], timeout=2400),
         dict(name='stop_race_kept_T3', kernel='C14_stop_token.cpp', prefix='cck_', mode='res', shim='shim_sync', inline=20000, R=3, BMAX=60, unwind=3, covers=[0], timeout=2400),
+        dict(name='stop_two_registrars', kernel='C14_stop_token.cpp', prefix='cc3_', mode='res', shim='shim_sync', inline=20000, R=3, BMAX=60, unwind=3, covers=[0], timeout=2400),
         dict(name='stop_race_T3', kernel='C14_stop_token.cpp', prefix='cc_', mode='res', shim='shim_sync', inline=20000, R=3, BMAX=60, unwind=3, covers=[0], timeout=2400),
     ],
 }
@@ -195,7 +196,12 @@ PROPS['C03'] = {
         'Not covered: completions arriving later from another thread, concurrent consumers, compositions deeper than 1, split_tuple, when_all_vector, schedule_from/continues_on, require_started, unpack, '
         'drop_operation_state, start_detached, sync_wait, any_sender; object-lifetime ledger.',
     ],
-    'queries': [_c03('then_inline', 'then_'), _c03('let_value_inline', 'let_'), _c03('let_error_inline', 'lete_'), _c03('when_all_inline', 'wall_'), _c03('split_two_consumers_inline', 'split_'),
+    # split / ensure_started keep their continuations in type-erased unique_function objects (pointers stored in byte buffers): under a
+    # symbolic schedule CBMC's points-to sets for them degrade and symex needs tens of minutes and > 8 GB -> thorough tier only
+    'queries': [dict(name=n, kernel='C03_concurrent.cpp', prefix=pf, mode='res', shim='shim_sync', inline=20000, R=3, BMAX=60, unwind=4, covers=[0], timeout=to, mem_gb=mem, tiers=tiers)
+                for n, pf, to, mem, tiers in [('when_all_two_threads', 'wac_', 2400, 14, ('quick', 'thorough')), ('split_concurrent_consumers', 'spc_', 9000, 28, ('thorough',)),
+                                              ('ensure_started_concurrent', 'esc_', 9000, 28, ('thorough',))]] +
+               [_c03('then_inline', 'then_'), _c03('let_value_inline', 'let_'), _c03('let_error_inline', 'lete_'), _c03('when_all_inline', 'wall_'), _c03('split_two_consumers_inline', 'split_'),
                 _c03('ensure_started_inline', 'ens_'), _c03('drop_value_inline', 'drop_')],
 }
 
